@@ -152,6 +152,9 @@ FormatMismatches(ev, base) ==
                 ELSE {<<"C09-connections-differ-from-result", tag, "missing", SS(a.conn) \ SS(o.conn), "extra", SS(o.conn) \ SS(a.conn)>>})
           \cup (IF ~ev.exposure \/ SS(o.x) = SS(a.x) THEN {}
                 ELSE {<<"C09-exposure-rows-differ-from-result", tag, "missing", SS(a.x) \ SS(o.x), "extra", SS(o.x) \ SS(a.x)>>})
+          \* what each workload is exposed to: the printed namespace / pod selectors, canonicalised, against the API's selectors
+          \cup (IF ~ev.exposure \/ ev.fmt = "dot" \/ SS(o.xsel) = SS(a.xsel) THEN {}
+                ELSE {<<"C09-exposure-peer-selectors-differ-from-result", tag, "missing", SS(a.xsel) \ SS(o.xsel), "extra", SS(o.xsel) \ SS(a.xsel)>>})
           \cup (IF ~ev.exposure \/ ev.fmt = "dot" \/ SS(o.xip) = SS(a.xip) THEN {}
                 ELSE {<<"C09-exposure-ip-rows-differ", tag, "missing", SS(a.xip) \ SS(o.xip), "extra", SS(o.xip) \ SS(a.xip)>>})
           \cup (IF ~ev.exposure \/ ~o.hasUnp \/ SS(o.unprot) = SS(a.unprot) THEN {}
